@@ -5,7 +5,7 @@
    (open / hash_check(quick or full) / hash_stop / close), scheduler ticks and hash-result
    deliveries in any order. *)
 From Coq Require Import List NArith Bool Arith.
-From LTV.C09 Require Import ParamsGen Model Proofs ProofsA ProofsB ProofsC.
+From LTV.C09 Require Import ParamsGen Model Proofs ProofsA ProofsB ProofsC ProofsE ProofsG ProofsH.
 Import ListNotations.
 
 (* constants re-extracted from the source satisfy the side conditions *)
@@ -62,23 +62,79 @@ Example check_readonly_nonvacuous :
   = [Bytes []; Bytes [4;9]%N].
 Proof. vm_compute. reflexivity. Qed.
 
-(* stop_releases (partial, see ProofsC): after hash_stop during a check, and after close in any
-   state, nothing is queued, the checker is idle and no notification is pending; after close the
-   chunk list is gone *)
-Theorem stop_releases_partial : forall s,
+(* ------------------------------------------------------------------------------------------
+   The remaining theorems are about clients that do not call hash_check while the completion /
+   error notification of a previous check is still waiting in the scheduler (explicit
+   hypothesis [polite]: at every OCheck in the list, s_delay = false).  Everything else — order
+   and number of deliveries, stop/close at any point, quick or full checks, re-opening — is
+   arbitrary. *)
+
+(* no legal history raises an internal_error (the model's s_ierr covers every throw site of the
+   modelled functions, including ChunkList::clear's "still referenced" and the fuel of queue()) *)
+Theorem check_no_internal_error : forall H pl expected fs0 ops,
+  polite H pl expected (init fs0) ops -> s_ierr (run H pl expected ops (init fs0)) = false.
+Proof. exact ProofsH.check_no_internal_error. Qed.
+Print Assumptions check_no_internal_error.
+
+(* check_exact: after a completed check, bit i is set IF AND ONLY IF every file window of piece i
+   exists on disk and the bytes hash to the torrent's value *)
+Theorem check_exact : forall H pl expected fs0 ops bl i,
+  polite H pl expected (init fs0) ops ->
+  is_checked (run H pl expected ops (init fs0)) = true ->
+  s_bits (run H pl expected ops (init fs0)) = Some bl -> i < npieces pl fs0 ->
+  (nth i bl false = true <-> valid H pl expected fs0 i = true).
+Proof. exact ProofsH.check_exact. Qed.
+Print Assumptions check_exact.
+
+Example check_exact_nonvacuous :
+  let fs0 := [fresh_file 3 false (Bytes [1;2;3]%N); fresh_file 2 false (Bytes [4;9]%N)] in
+  let expected := fun i : nat => match i with O => [1;2]%N | 1 => [3;4]%N | _ => [5]%N end in
+  let ops := [OOpen; OCheck false; ODeliver 2; OStop; OCheck false; ORunAll] in
+  polite (fun b => b) 2%N expected (init fs0) ops /\
+  is_checked (run (fun b => b) 2%N expected ops (init fs0)) = true /\
+  s_bits (run (fun b => b) 2%N expected ops (init fs0)) = Some [true; true; false].
+Proof. vm_compute. repeat split; reflexivity. Qed.
+
+(* stop_releases: hash_stop during a check leaves every chunk list node unmapped with reference and
+   blocking count zero, nothing queued, no notification pending; close (in any state) leaves no
+   chunk list at all; neither raises an internal error *)
+Theorem stop_releases : forall H pl expected fs0 ops,
+  polite H pl expected (init fs0) ops ->
+  let s := run H pl expected ops (init fs0) in
   (is_checking s = true ->
-     s_hq (do_stop s) = [] /\ is_checking (do_stop s) = false /\ s_delay (do_stop s) = false) /\
-  (s_hq (do_close s) = [] /\ is_checking (do_close s) = false /\ s_delay (do_close s) = false /\
-   (s_open s = true -> s_nodes (do_close s) = [] /\ s_open (do_close s) = false /\ s_bits (do_close s) = None)).
-Proof. exact ProofsC.stop_releases_partial. Qed.
-Print Assumptions stop_releases_partial.
+     Forall (fun nd => nd = mkN None 0 0) (s_nodes (do_stop s)) /\ s_hq (do_stop s) = [] /\
+     is_checking (do_stop s) = false /\ s_delay (do_stop s) = false /\ s_ierr (do_stop s) = false) /\
+  (s_nodes (do_close s) = [] /\ s_hq (do_close s) = [] /\ is_checking (do_close s) = false /\
+   s_delay (do_close s) = false /\ s_ierr (do_close s) = false /\ s_open (do_close s) = false).
+Proof. exact ProofsH.stop_releases. Qed.
+Print Assumptions stop_releases.
 
 Example stop_releases_nonvacuous :
   let fs0 := [fresh_file 4 false (Bytes [1;2;3;4]%N)] in
-  let s := run (fun b => b) 2%N (fun _ => []) [OOpen; OCheck false] (init fs0) in
-  is_checking s = true /\ length (s_hq s) = 2 /\
-  map n_refs (s_nodes (do_stop s)) = [0; 0] /\ s_ranges (do_stop s) = [true; true].
+  let ops := [OOpen; OCheck false] in
+  let s := run (fun b => b) 2%N (fun _ => []) ops (init fs0) in
+  polite (fun b => b) 2%N (fun _ => []) (init fs0) ops /\ is_checking s = true /\ length (s_hq s) = 2 /\
+  map n_refs (s_nodes s) = [1; 1] /\ map n_refs (s_nodes (do_stop s)) = [0; 0] /\ s_ranges (do_stop s) = [true; true].
 Proof. vm_compute. repeat split; reflexivity. Qed.
+
+(* check_terminates: a full hash_check followed by "every queued piece is answered" (any number of
+   rounds; measure size - position + outstanding strictly decreases with every delivery) always
+   ends the check — completed or aborted with a storage error *)
+Theorem check_terminates : forall H pl expected fs0 ops,
+  polite H pl expected (init fs0) ops ->
+  let s := run H pl expected ops (init fs0) in
+  is_checking s = false -> s_delay s = false ->
+  let s1 := do_check pl false s in
+  is_checking (run_all H pl expected (run_all_fuel s1) s1) = false.
+Proof. exact ProofsH.check_terminates. Qed.
+Print Assumptions check_terminates.
+
+Example check_terminates_nonvacuous :
+  let fs0 := [fresh_file 4 false (Bytes [1;2;3;4]%N); fresh_file 2 false Unreadable] in
+  let s := run (fun b => b) 2%N (fun _ => []) [OOpen] (init fs0) in
+  let s1 := do_check 2%N false s in
+  is_checking s1 = true /\ s_storerr (run_all (fun b => b) 2%N (fun _ => []) (run_all_fuel s1) s1) = true.
+Proof. vm_compute. split; reflexivity. Qed.
 
 (* a legal call sequence answered with internal_error (confirmed on the implementation) for as long
    as HashTorrent::start does not erase a stale m_delay_checked (re-extracted from the source) *)
